@@ -29,6 +29,54 @@ def endState : Driver.Op := fun j => do
     ← getBool j "socket_open"⟩
   return Json.mkObj [("consistent", jBool (consistent s))]
 
-def ops : List (String × Driver.Op) := [("lifecycle.seq", seq), ("lifecycle.end", endState)]
+/-- index (in the flattened list of calls) of the call thread `t` is executing: its first call that is not done -/
+def currentCall (pcs : List Pc) (owner : List Nat) (t : Nat) : Option Nat :=
+  (List.range pcs.length).find? (fun i => owner[i]? == some t && pcs[i]? != some Pc.done)
+
+/-- Replay of an observed run of the real server under the deterministic scheduler: every call of every
+caller thread is one thread of the model (a later call of the same caller only starts once the earlier one is
+done, which is a restriction of the schedules the theorems quantify over); every observed critical section of a
+caller is `step c (some i)`, the request-port thread noticing the shutdown request is `step c none`.
+Answers, per event, the model state afterwards and whether the model step was enabled. -/
+def replay : Driver.Op := fun j => do
+  let threads ← (← getArr j "threads").mapM (fun th => do
+    (← th.getArr?).toList.mapM (fun x => do opFromString (← x.getStr?)))
+  let flat : List (Nat × Vinegar.Lifecycle.Op) :=
+    (threads.zipIdx.map (fun (p : List Vinegar.Lifecycle.Op × Nat) => p.1.map (fun o => (p.2, o)))).flatten
+  let owner := flat.map (·.1)
+  let pcs0 : List Pc := flat.map (fun p => match p.2 with
+    | Vinegar.Lifecycle.Op.start => Pc.startCall
+    | Vinegar.Lifecycle.Op.stop => Pc.stopCall
+    | Vinegar.Lifecycle.Op.request => Pc.done)
+  let mut c : Config := ⟨Shared.init, pcs0⟩
+  let mut out : List Json := []
+  for ev in (← getArr j "events") do
+    let k ← getStr ev "k"
+    let mut enabled := true
+    if k == "cs" then
+      let t ← getNat ev "t"
+      match currentCall c.pcs owner t with
+      | none => enabled := false
+      | some i =>
+        if c.pcs[i]? == some Pc.stopJoin then
+          -- the join has returned: enabled in the model only once the request-port thread has ended
+          match step c (some i) with
+          | some c' => c := c'
+          | none => enabled := false
+        match step c (some i) with
+        | some c' => c := c'
+        | none => enabled := false
+    else if k == "srv_sees_shutdown" then
+      match step c none with
+      | some c' => c := c'
+      | none => enabled := false
+    else if k == "srv_end" then
+      pure ()
+    else throw s!"bad event kind {k}"
+    out := out ++ [Json.mkObj [("state", sharedToJson c.sh), ("enabled", jBool enabled)]]
+  return Json.mkObj [("steps", jArr out), ("all_done", jBool (allDone c)), ("consistent", jBool (consistent c.sh)),
+    ("final", sharedToJson c.sh)]
+
+def ops : List (String × Driver.Op) := [("lifecycle.seq", seq), ("lifecycle.end", endState), ("lifecycle.replay", replay)]
 
 end Driver.Lifecycle
